@@ -29,7 +29,7 @@ import hashlib
 from opsim import seams
 from opsim.core import CLOCK, EPOCH, derive, HarnessError
 from opsim.sched import SeqTracer, Sched, SimLock
-from opsim.util import call, weighted
+from opsim.util import call, weighted, quiet
 
 from operon_ai.topology.loops import CoherentFeedForwardLoop, GateLogic
 from operon_ai.core.types import ActionProtein
@@ -440,11 +440,11 @@ class World:
         cfg = self.cfg = plan["config"]
         self.logic = cfg["logic"]
         self.prompts = plan["prompts"]
-        self.budget = ATP_Store(budget=cfg["budget"], silent=True)
+        self.budget = ATP_Store(budget=cfg["budget"], silent=quiet())
         self.loop = CoherentFeedForwardLoop(
             budget=self.budget, gate_logic=GateLogic[self.logic], enable_circuit_breaker=(cfg["breaker"] != "off"),
             failure_threshold=10 ** 9, recovery_timeout_seconds=60.0, enable_cache=cfg["cache"],
-            cache_ttl_seconds=cfg["ttl"], silent=True)
+            cache_ttl_seconds=cfg["ttl"], silent=quiet())
         seams.assert_sim_lock(self.loop)
         self.cur_req = {}
         if cfg["agents"] == "real":
